@@ -29,3 +29,34 @@ Proof.
     + cbn. discriminate.
   - cbn. discriminate.
 Qed.
+
+(** ** The two halves of a layer do not disturb each other (full duplex) *)
+
+Definition receiver_part (s : layer) :=
+  (rx_state s, rx_buffer s, rx_frame_length s, last_seqnum s, rx_block_counter s, actual_rxdl s,
+   pending_fc s, pending_fc_status s, timer_rx_cf s, rx_queue s).
+
+Definition limiter_part (s : layer) := (lim_times s, lim_bits s, lim_total s).
+
+(** Ending a transmission - success, protocol error or the user's stop_sending() - touches nothing of the reception in progress
+    (state, buffer, announced length, sequence and block counters, the Flow Control the layer still owes, its deadline, the delivered
+    payloads), nothing of the rate limiter's window, and not the queue of requests still to send. *)
+Lemma stop_sending_keeps_reception b s :
+  receiver_part (fst (stop_sending b s)) = receiver_part s /\
+  limiter_part (fst (stop_sending b s)) = limiter_part s /\
+  tx_queue (fst (stop_sending b s)) = tx_queue s /\
+  last_fc (fst (stop_sending b s)) = last_fc s.
+Proof. unfold stop_sending. cbn. repeat split. Qed.
+
+(** Ending a reception - completion, protocol error, timeout or the user's stop_receiving() - leaves the transmission in progress
+    alone: state, request, queue, frame in standby, granted block, counters, timers, limiter.  (It does empty the one-place mailbox
+    of received Flow Controls, as _stop_receiving does: with combined process() calls the mailbox is always read by the transmit
+    pass of the call that filled it.) *)
+Definition sender_core (s : layer) :=
+  (tx_state s, active s, tx_queue s, tx_standby s, remote_bs s, tx_block_counter s, tx_seqnum s, wft_counter s, tx_frame_length s,
+   timer_rx_fc s, timer_tx_stmin s).
+
+Lemma stop_receiving_keeps_transmission s :
+  sender_core (stop_receiving s) = sender_core s /\ limiter_part (stop_receiving s) = limiter_part s /\
+  rx_queue (stop_receiving s) = rx_queue s.
+Proof. unfold stop_receiving, stop_sending_fc. cbn. repeat split. Qed.
